@@ -2,7 +2,8 @@
 From Coq Require Import List ZArith Bool Lia Permutation.
 From DD Require Import Model.Circuit Model.Query Model.Enumerate Proofs.Semantics Proofs.DetCert
      Proofs.CountsA Proofs.QueryDefs
-     Proofs.C06Prefix Proofs.C06Machine Proofs.C06Node Proofs.C06Sort Proofs.C06Page.
+     Proofs.C06Prefix Proofs.C06Machine Proofs.C06Node Proofs.C06Sort Proofs.C06Page
+     Proofs.C06Final.
 Import ListNotations.
 Open Scope Z_scope.
 
@@ -319,3 +320,135 @@ Example exec_spec_evaluated :
   forallb (exec_okb ex_core 3)
           (map (fun a => a ++ a ++ a ++ a ++ a ++ a ++ a ++ a) (partials [3;1;2])) = true.
 Proof. repeat (split; [vm_compute; reflexivity|]). vm_compute; reflexivity. Qed.
+
+(* ---------------------------------------------------------------------------------------------
+   FINAL forms: the hypothesis exec_spec is a theorem (Proofs/ExecTemps.v, Proofs/C06Final.v) for
+   every WFQ circuit (WF + unique leaves + all nodes reachable + non-zero literals; all established
+   by check_wf: QueryDefs.check_wf_WFQ) and every in-range assumption list (any order, duplicates,
+   contradictory literals, core and dead literals, any length / strategy). *)
+Theorem C06_exec_spec_holds : forall C n A, WFQ C n -> in_range n A -> exec_spec C n A.
+Proof. exact exec_spec_holds. Qed.
+Print Assumptions C06_exec_spec_holds.
+
+Theorem C06_enumerate_page_final : forall C n, WFQ C n -> (0 < n)%nat -> or_no_true_child C = true ->
+  forall A amount cur s, in_range n A -> Clean C s -> 0 < amount ->
+  let c := MCA C n A in
+  let p := cur_get cur (sort_abs A) in
+  let stop := Z.min c (p + amount) in
+  0 < c -> 0 <= p < c ->
+  exists s2, Clean C s2 /\
+    enumerate (build C n) A amount cur s =
+    (s2, cur_set cur (sort_abs A) (stop mod c), Some (map sort_abs (slice p stop (EOr C A)))).
+Proof. exact enumerate_page_final. Qed.
+Print Assumptions C06_enumerate_page_final.
+
+Theorem C06_enumerate_page_cursor_final : forall C n, WFQ C n -> (0 < n)%nat ->
+  or_no_true_child C = true ->
+  forall A amount cur s s2 cur2 r, in_range n A -> Clean C s -> 0 < amount ->
+  let c := MCA C n A in
+  let p := cur_get cur (sort_abs A) in
+  0 < c -> 0 <= p < c ->
+  enumerate (build C n) A amount cur s = (s2, cur2, r) ->
+  cur_get cur2 (sort_abs A) = Z.min c (p + amount) mod c /\
+  (forall k, k <> sort_abs A -> cur_get cur2 k = cur_get cur k).
+Proof. exact enumerate_page_cursor_final. Qed.
+Print Assumptions C06_enumerate_page_cursor_final.
+
+Theorem C06_enumerate_none_iff_final : forall C n, WFQ C n -> (0 < n)%nat ->
+  forall A amount cur s,
+  (forall l, In l A -> l <> 0) -> Clean C s -> amount <> 0 ->
+  (snd (enumerate (build C n) A amount cur s) = None <-> MCA C n A = 0 \/ out_of_range n A).
+Proof. exact enumerate_none_iff_final. Qed.
+Print Assumptions C06_enumerate_none_iff_final.
+
+Theorem C06_enumerate_none_keeps_cursor_final : forall C n, WFQ C n -> (0 < n)%nat ->
+  forall A amount cur s, in_range n A -> Clean C s -> amount <> 0 ->
+  MCA C n A = 0 ->
+  exists s2, Clean C s2 /\ enumerate (build C n) A amount cur s = (s2, cur, None).
+Proof. exact enumerate_none_unsat_final. Qed.
+Print Assumptions C06_enumerate_none_keeps_cursor_final.
+
+Theorem C06_pages_cyclic_final : forall C n, WFQ C n -> (0 < n)%nat -> or_no_true_child C = true ->
+  forall A, in_range n A -> NoDup (map Z.abs A) ->
+  forall reqs cur s, Clean C s -> Forall (req_ok A) reqs -> 0 < MCA C n A ->
+  let p := cur_get cur (sort_abs A) in
+  0 <= p < MCA C n A ->
+  exists rs cur' s',
+    run_pages (build C n) reqs cur s = (rs, cur', s') /\
+    pages_of rs = map sort_abs (cyc (MCA C n A) (EOr C A) [] p
+                                    (spec_total (MCA C n A) p (map snd reqs))) /\
+    map (fun r => match r with Some l => Z.of_nat (length l) | None => -1 end) rs
+      = spec_lens (MCA C n A) p (map snd reqs) /\
+    0 <= cur_get cur' (sort_abs A) < MCA C n A.
+Proof. exact pages_cyclic_final. Qed.
+Print Assumptions C06_pages_cyclic_final.
+
+Theorem C06_pages_within_cycle_final : forall C n, WFQ C n -> (0 < n)%nat ->
+  or_no_true_child C = true ->
+  forall A, in_range n A -> NoDup (map Z.abs A) ->
+  forall reqs cur s, Clean C s -> Forall (req_ok A) reqs -> 0 < MCA C n A ->
+  cur_get cur (sort_abs A) = 0 -> zsum (map snd reqs) <= MCA C n A ->
+  exists rs cur' s',
+    run_pages (build C n) reqs cur s = (rs, cur', s') /\
+    pages_of rs = map sort_abs (firstn (Z.to_nat (zsum (map snd reqs))) (EOr C A)) /\
+    NoDup (pages_of rs) /\
+    cur_get cur' (sort_abs A) = zsum (map snd reqs) mod MCA C n A.
+Proof. exact pages_within_cycle_final. Qed.
+Print Assumptions C06_pages_within_cycle_final.
+
+Theorem C06_pages_within_cycle_from_final : forall C n, WFQ C n -> (0 < n)%nat ->
+  or_no_true_child C = true ->
+  forall A, in_range n A -> NoDup (map Z.abs A) ->
+  forall reqs cur s, Clean C s -> Forall (req_ok A) reqs -> 0 < MCA C n A ->
+  let p := cur_get cur (sort_abs A) in
+  0 <= p < MCA C n A -> p + zsum (map snd reqs) <= MCA C n A ->
+  exists rs cur' s',
+    run_pages (build C n) reqs cur s = (rs, cur', s') /\
+    pages_of rs = map sort_abs (slice p (p + zsum (map snd reqs)) (EOr C A)) /\
+    NoDup (pages_of rs) /\
+    cur_get cur' (sort_abs A) = (p + zsum (map snd reqs)) mod MCA C n A.
+Proof. exact pages_within_cycle_from_final. Qed.
+Print Assumptions C06_pages_within_cycle_from_final.
+
+Theorem C06_pages_cycle_final : forall C n, WFQ C n -> (0 < n)%nat -> or_no_true_child C = true ->
+  forall A, in_range n A -> NoDup (map Z.abs A) ->
+  forall reqs cur s, Clean C s -> Forall (req_ok A) reqs -> 0 < MCA C n A ->
+  cur_get cur (sort_abs A) = 0 -> zsum (map snd reqs) = MCA C n A ->
+  exists rs cur' s',
+    run_pages (build C n) reqs cur s = (rs, cur', s') /\
+    pages_of rs = map sort_abs (EOr C A) /\
+    Permutation (pages_of rs) (ModelsA C n A) /\
+    NoDup (pages_of rs) /\
+    cur_get cur' (sort_abs A) = 0.
+Proof. exact pages_cycle_final. Qed.
+Print Assumptions C06_pages_cycle_final.
+
+(* non-vacuity of the final forms: the three example circuits are WFQ (check_wf), and the full
+   cycle theorem applies to ex_core with the assumption [2] (a core literal 1 and a true node are
+   in the circuit): two pages of one model each return ModelsA and the cursor to 0 *)
+Example ex_final_hyps :
+  WFQ ex_iff 2 /\ WFQ ex_and 3 /\ WFQ ex_core 3 /\ or_no_true_child ex_core = true /\
+  in_range 3 [2] /\ NoDup (map Z.abs [2]) /\ MCA ex_core 3 [2] = 1 /\ MCA ex_core 3 [3; 1] = 1.
+Proof.
+  split; [apply check_wf_WFQ; vm_compute; reflexivity|].
+  split; [apply check_wf_WFQ; vm_compute; reflexivity|].
+  split; [apply check_wf_WFQ; vm_compute; reflexivity|].
+  split; [reflexivity|]. split; [intros l [<-|[]]; cbn; lia|].
+  split; [repeat constructor; intros []|]. split; vm_compute; reflexivity.
+Qed.
+
+Example ex_final_applies :
+  exists rs cur' s',
+    run_pages (build ex_core 3) [([2], 1)] [] (fresh_scratch ex_core) = (rs, cur', s') /\
+    pages_of rs = map sort_abs (EOr ex_core [2]) /\
+    Permutation (pages_of rs) (ModelsA ex_core 3 [2]) /\
+    NoDup (pages_of rs) /\ cur_get cur' (sort_abs [2]) = 0.
+Proof.
+  destruct ex_final_hyps as (_ & _ & HQ & Hor & HA & HND & Hc & _).
+  apply (C06_pages_cycle_final ex_core 3 HQ ltac:(lia) Hor [2] HA HND).
+  - apply fresh_clean.
+  - constructor; [|constructor]. split; [reflexivity|cbn; lia].
+  - rewrite Hc. lia.
+  - reflexivity.
+  - rewrite Hc. reflexivity.
+Qed.
